@@ -14,11 +14,18 @@ def prep(d):
     return t
 
 def run(job):
-    i, t, prop = job
-    env = dict(os.environ, PYX_REPO=t, PYX_NO_EVIDENCE='1')
-    p = subprocess.run([PY, '/verif/sa/check.py', prop, '--tier', 'quick'], capture_output=True, text=True, env=env, cwd='/verif')
-    lines = [l for l in (p.stdout + p.stderr).splitlines() if (' -- ' in l and not l.startswith(('RULE', 'KNOWN-FINDING', '  info'))) or l.startswith('ANALYSIS-ERROR') or 'Traceback' in l]
-    return i, prop, p.returncode, lines
+    """all checks for one scratch tree, one after the other (they share the development-only equivalence cache of that tree)"""
+    i, t, props = job
+    cache = t + '-eqc'
+    out = []
+    for prop in props:
+        env = dict(os.environ, PYX_REPO=t, PYX_NO_EVIDENCE='1', PYX_EQUIV_CACHE=cache)
+        p = subprocess.run([PY, '/verif/sa/check.py', prop, '--tier', 'quick'], capture_output=True, text=True, env=env, cwd='/verif')
+        lines = [l for l in (p.stdout + p.stderr).splitlines() if (' -- ' in l and not l.startswith(('RULE', 'KNOWN-FINDING', '  info'))) or l.startswith('ANALYSIS-ERROR') or 'Traceback' in l]
+        out.append((i, prop, p.returncode, lines))
+    shutil.rmtree(cache, ignore_errors=True)
+    shutil.rmtree(t, ignore_errors=True)
+    return out
 
 def main():
     ids = [a for a in sys.argv[1:] if not a.startswith('-')]
@@ -27,13 +34,14 @@ def main():
     def touches(i, path):
         return path in open('/verif/refactored/%s/patch.diff' % i).read()
     # C16 reads xtuml/meta.py only: a patch that does not touch it cannot change its verdict
-    jobs = [(i, t, p) for i, t in temps.items() for p in PROPS if p != 'C16' or touches(i, 'xtuml/meta.py')]
+    jobs = [(i, t, [p for p in PROPS if p != 'C16' or touches(i, 'xtuml/meta.py')]) for i, t in temps.items()]
     res = {}
     try:
         with concurrent.futures.ThreadPoolExecutor(max_workers=16) as ex:
-            for i, prop, rc, lines in ex.map(run, jobs):
-                if rc != 0:
-                    res.setdefault(i, []).append((prop, rc, lines))
+            for outs in ex.map(run, jobs):
+                for i, prop, rc, lines in outs:
+                    if rc != 0:
+                        res.setdefault(i, []).append((prop, rc, lines))
     finally:
         for t in temps.values():
             shutil.rmtree(t, ignore_errors=True)
